@@ -933,6 +933,10 @@ func tryReplay(w *World, ur *UnitResult, o *OblResult, workdir string) *ReplayRe
 		rr.Reason = "could not run the replay test (see output)"
 		return rr
 	}
+	if nres == 0 || !strings.Contains(o.Desc, "result") {
+		rr.Reason = "the violated clause is about the heap, not about the results: running the real code on the model's input cannot confirm it by itself"
+		return rr
+	}
 	match := true
 	for i := range observed {
 		if predicted[i] == "?" {
